@@ -19,6 +19,7 @@ EXPLANATION = (
     "re-raises; the constraint check is an *edge*-membership test over *all* constraint subpaths, placed after the edge loop; all raises "
     "are ValueError and no handler swallows; read_graphs hands every block to read_graph; (R2) the stored counts n, m, w are computed from "
     "(R4) read_graphs splits blocks only by `line starts with '#'` (all three scanning loops), so '#S' lines open / belong to a block like any header line.  "
+    " (R5) no exit of read_graph precedes the constraint check and every exit stores n, m, w; a weight that float() accepts but is not finite is rejected; read_graphs rejects non-blank content before the first header. "
     "the graph after the last add_edge.  NOT decided: that the graph equals the file's content (round trip over runtime text)."
 )
 DECIDED = ["malformed edge line / non-numeric weight or count / constraint edge missing from the graph raise ValueError on every path",
